@@ -52,6 +52,7 @@ type pkgInfo struct {
 type translator struct {
 	// statements of ValidateNodeGroup that could not be translated (the rest is still emitted: see partialError)
 	untranslated []string
+	broken error // set when the source tree could not be opened at all: every package load fails with it
 	repo   string
 	module string
 	fset   *token.FileSet
@@ -78,6 +79,9 @@ func newTranslator(repo string) (*translator, error) {
 }
 
 func (t *translator) loadPkg(rel string) (*pkgInfo, error) {
+	if t.broken != nil {
+		return nil, t.broken
+	}
 	dir := filepath.Join(t.repo, rel)
 	if p, ok := t.pkgs[dir]; ok {
 		return p, nil
@@ -1463,59 +1467,100 @@ func coqStrListSep(l []string, sep string) (string, error) {
 func coqStrList(l []string) (string, error) { return coqStrListSep(l, "; ") }
 
 // generate rewrites Generated.v from the repository source (constants, json tags, documented keys, validation rules).
+// The file is ALWAYS written: an item that cannot be derived from the source is emitted as a typed marker
+// (`Definition gen_x : gen_item_untranslated := GenItemUntranslated.`, coq/Config.v) and listed in `gen_untranslated`;
+// every other item is produced normally.  The error (a *partialError) then makes `harness gen` exit 3.
 func generate(repo, out string) error {
 	text, err := generateText(repo)
-	if err != nil {
-		if _, partial := err.(*partialError); partial {
-			if werr := os.WriteFile(out, []byte(text), 0o644); werr != nil {
-				return werr
-			}
+	if text != "" {
+		if werr := os.WriteFile(out, []byte(text), 0o644); werr != nil {
+			return werr
 		}
-		return err
 	}
-	return os.WriteFile(out, []byte(text), 0o644)
+	return err
+}
+
+// a string for a Coq comment-free position (the `gen_untranslated` list, rule sources): control characters blanked
+func coqStringSafe(s string) string {
+	b := []byte(s)
+	for i := range b {
+		if b[i] < 0x20 || b[i] == 0x7f {
+			b[i] = ' '
+		}
+	}
+	c, _ := coqString(string(b))
+	return c
+}
+
+func coqStrListSafe(l []string, sep string) string {
+	items := []string{}
+	for _, s := range l {
+		items = append(items, coqStringSafe(s))
+	}
+	return "[" + strings.Join(items, sep) + "]"
+}
+
+// genItems is the output under construction: the items are independent of each other.
+type genItems struct {
+	b       strings.Builder
+	missing []string // "<item>: <why>" — items emitted as GenItemUntranslated, and statements of ValidateNodeGroup outside the grammar
+}
+
+// marker emits the definitions `names` as the typed marker and records why
+func (g *genItems) marker(err error, names ...string) {
+	for _, n := range names {
+		fmt.Fprintf(&g.b, "Definition %s : gen_item_untranslated := GenItemUntranslated.\n", n)
+	}
+	g.missing = append(g.missing, names[0]+": "+err.Error())
 }
 
 func generateText(repo string) (string, error) {
-	abs, err := filepath.Abs(repo)
-	if err != nil {
-		return "", err
-	}
-	t, err := newTranslator(abs)
-	if err != nil {
-		return "", err
-	}
-	var b strings.Builder
+	g := &genItems{}
+	b := &g.b
 	b.WriteString("(* Generated.v — written by `harness gen` from the escalator source tree on every run.  DO NOT EDIT.\n")
 	b.WriteString("   Sources: pkg/cloudprovider/aws/aws.go, pkg/k8s/taint.go, pkg/controller/{node_group,scale_down}.go,\n")
-	b.WriteString("   docs/configuration/nodegroup.md.  Translator: harness/gen.go. *)\n")
+	b.WriteString("   docs/configuration/nodegroup.md.  Translator: harness/gen.go.\n")
+	b.WriteString("   The items are independent: one that could not be derived from the source is defined as GenItemUntranslated\n")
+	b.WriteString("   (coq/Config.v) and named in gen_untranslated at the end; the others are unaffected. *)\n")
 	b.WriteString("From Coq Require Import String ZArith List Bool.\n")
 	b.WriteString("From Esc Require Import Base Config.\n")
 	b.WriteString("Import ListNotations.\nOpen Scope string_scope.\nOpen Scope Z_scope.\n\n")
 
+	var t *translator
+	abs, err := filepath.Abs(repo)
+	if err == nil {
+		t, err = newTranslator(abs)
+	}
+	if err != nil {
+		// no source tree to read: every item is missing (the file is still a well-formed module)
+		t = &translator{repo: abs, fset: token.NewFileSet(), pkgs: map[string]*pkgInfo{}, broken: err}
+	}
+
 	// ---- constants ----
-	type natc struct{ coq, rel, name string }
 	b.WriteString("(* ---- constants ---- *)\n")
+	type natc struct{ coq, rel, name string }
 	for _, c := range []natc{{"gen_attach_batch", "pkg/cloudprovider/aws", "batchSize"}, {"gen_terminate_batch", "pkg/cloudprovider/aws", "terminateBatchSize"}} {
 		v, err := t.constOf(c.rel, c.name)
+		if err == nil && (v.ci == nil || v.ci.Sign() < 0 || v.ci.Cmp(big.NewInt(100000)) > 0) {
+			err = fmt.Errorf("%s: constant %s is not an integer in [0, 100000] (the model uses it as a unary nat)", c.rel, c.name)
+		}
 		if err != nil {
-			return "", err
+			g.marker(err, c.coq+"_z", c.coq)
+			continue
 		}
-		if v.ci == nil || v.ci.Sign() < 0 || v.ci.Cmp(big.NewInt(100000)) > 0 {
-			return "", fmt.Errorf("%s: constant %s is not an integer in [0, 100000] (the model uses it as a unary nat)", c.rel, c.name)
-		}
-		fmt.Fprintf(&b, "Definition %s_z : Z := %s.  (* %s.%s *)\n", c.coq, coqZ(v.ci), c.rel, c.name)
-		fmt.Fprintf(&b, "Definition %s : nat := Z.to_nat %s_z.\n", c.coq, c.coq)
+		fmt.Fprintf(b, "Definition %s_z : Z := %s.  (* %s.%s *)\n", c.coq, coqZ(v.ci), c.rel, c.name)
+		fmt.Fprintf(b, "Definition %s : nat := Z.to_nat %s_z.\n", c.coq, c.coq)
 	}
 	{
 		v, err := t.constOf("pkg/cloudprovider/aws", "maxTerminateInstancesTries")
+		if err == nil && v.ci == nil {
+			err = fmt.Errorf("pkg/cloudprovider/aws: maxTerminateInstancesTries is not an integer constant")
+		}
 		if err != nil {
-			return "", err
+			g.marker(err, "gen_max_tries")
+		} else {
+			fmt.Fprintf(b, "Definition gen_max_tries : Z := %s.  (* pkg/cloudprovider/aws.maxTerminateInstancesTries *)\n", coqZ(v.ci))
 		}
-		if v.ci == nil {
-			return "", fmt.Errorf("pkg/cloudprovider/aws: maxTerminateInstancesTries is not an integer constant")
-		}
-		fmt.Fprintf(&b, "Definition gen_max_tries : Z := %s.  (* pkg/cloudprovider/aws.maxTerminateInstancesTries *)\n", coqZ(v.ci))
 	}
 	type strc struct{ coq, rel, name string }
 	for _, c := range []strc{
@@ -1527,112 +1572,112 @@ func generateText(repo string) (string, error) {
 		{"gen_lifecycle_spot", "pkg/cloudprovider/aws", "LifecycleSpot"},
 	} {
 		v, err := t.constOf(c.rel, c.name)
+		if err == nil && v.cs == nil {
+			err = fmt.Errorf("%s: %s is not a string constant", c.rel, c.name)
+		}
 		if err != nil {
-			return "", err
+			g.marker(err, c.coq)
+			continue
 		}
-		if v.cs == nil {
-			return "", fmt.Errorf("%s: %s is not a string constant", c.rel, c.name)
-		}
-		fmt.Fprintf(&b, "Definition %s : string := %s.  (* %s.%s *)\n", c.coq, v.coq, c.rel, c.name)
+		fmt.Fprintf(b, "Definition %s : string := %s.  (* %s.%s *)\n", c.coq, v.coq, c.rel, c.name)
 	}
 	{
 		v, err := t.defaultTaintEffect()
 		if err != nil {
-			return "", err
+			g.marker(err, "gen_default_taint_effect")
+		} else {
+			fmt.Fprintf(b, "Definition gen_default_taint_effect : string := %s.  (* pkg/k8s.AddToBeRemovedTaint, effect used when the option is empty *)\n", v.coq)
 		}
-		fmt.Fprintf(&b, "Definition gen_default_taint_effect : string := %s.  (* pkg/k8s.AddToBeRemovedTaint, effect used when the option is empty *)\n", v.coq)
 	}
 
 	// ---- tags ----
 	b.WriteString("\n(* ---- struct tags: (Go field, json name, yaml name) ---- *)\n")
-	for _, x := range []struct{ coq, typ string }{{"gen_tag_table", optsType}, {"gen_aws_tag_table", awsOptsType}} {
+	for _, x := range []struct{ coq, json, yaml, typ string }{{"gen_tag_table", "gen_json_tags", "gen_yaml_tags", optsType},
+		{"gen_aws_tag_table", "gen_aws_json_tags", "gen_aws_yaml_tags", awsOptsType}} {
 		rows, err := t.tags(x.typ)
-		if err != nil {
-			return "", err
-		}
-		fmt.Fprintf(&b, "Definition %s : list (string * (string * string)) := [\n", x.coq)
-		for i, r := range rows {
+		lines := []string{}
+		for i := 0; err == nil && i < len(rows); i++ {
+			r := rows[i]
 			f, e1 := coqString(r.field)
 			j, e2 := coqString(r.json)
 			y, e3 := coqString(r.yaml)
 			for _, e := range []error{e1, e2, e3} {
-				if e != nil {
-					return "", e
+				if e != nil && err == nil {
+					err = e
 				}
 			}
-			sep := ";"
-			if i == len(rows)-1 {
-				sep = ""
-			}
-			fmt.Fprintf(&b, "  (%s, (%s, %s))%s\n", f, j, y, sep)
+			lines = append(lines, fmt.Sprintf("  (%s, (%s, %s))", f, j, y))
 		}
-		b.WriteString("].\n")
+		if err != nil {
+			g.marker(err, x.coq, x.json, x.yaml)
+			continue
+		}
+		fmt.Fprintf(b, "Definition %s : list (string * (string * string)) := [\n%s\n].\n", x.coq, strings.Join(lines, ";\n"))
+		fmt.Fprintf(b, "Definition %s : list string := map (fun r => fst (snd r)) %s.\n", x.json, x.coq)
+		fmt.Fprintf(b, "Definition %s : list string := map (fun r => snd (snd r)) %s.\n", x.yaml, x.coq)
 	}
-	b.WriteString("Definition gen_json_tags : list string := map (fun r => fst (snd r)) gen_tag_table.\n")
-	b.WriteString("Definition gen_yaml_tags : list string := map (fun r => snd (snd r)) gen_tag_table.\n")
-	b.WriteString("Definition gen_aws_json_tags : list string := map (fun r => fst (snd r)) gen_aws_tag_table.\n")
-	b.WriteString("Definition gen_aws_yaml_tags : list string := map (fun r => snd (snd r)) gen_aws_tag_table.\n")
 
 	// ---- documented keys ----
-	top, aws, err := t.documentedKeys()
-	if err != nil {
-		return "", err
-	}
-	ts, err := coqStrList(top)
-	if err != nil {
-		return "", err
-	}
-	as, err := coqStrList(aws)
-	if err != nil {
-		return "", err
-	}
 	b.WriteString("\n(* ---- keys of the example block of docs/configuration/nodegroup.md ---- *)\n")
-	fmt.Fprintf(&b, "Definition gen_documented_keys : list string := %s.\n", ts)
-	fmt.Fprintf(&b, "Definition gen_documented_aws_keys : list string := %s.\n", as)
+	{
+		top, aws, err := t.documentedKeys()
+		var ts, as string
+		if err == nil {
+			ts, err = coqStrList(top)
+		}
+		if err == nil {
+			as, err = coqStrList(aws)
+		}
+		if err != nil {
+			g.marker(err, "gen_documented_keys", "gen_documented_aws_keys")
+		} else {
+			fmt.Fprintf(b, "Definition gen_documented_keys : list string := %s.\n", ts)
+			fmt.Fprintf(b, "Definition gen_documented_aws_keys : list string := %s.\n", as)
+		}
+	}
 
 	// ---- rules ----
+	b.WriteString("\n(* ---- ValidateNodeGroup: one boolean per checkThat(cond, …); accepted = all true ---- *)\n")
 	rs, err := t.rules()
 	if err != nil {
-		return "", err
-	}
-	b.WriteString("\n(* ---- ValidateNodeGroup: one boolean per checkThat(cond, …); accepted = all true ---- *)\n")
-	b.WriteString("Definition gen_rules : list (cfg -> bool) := [\n")
-	for i, r := range rs {
-		sep := ";"
-		if i == len(rs)-1 {
-			sep = ""
+		// the frame of ValidateNodeGroup is not the one the translator reads: no rule list at all
+		g.marker(err, "gen_rules", "gen_rule_src", "gen_rule_msg", "gen_validate", "gen_rules_untranslated")
+	} else {
+		b.WriteString("Definition gen_rules : list (cfg -> bool) := [\n")
+		for i, r := range rs {
+			sep := ";"
+			if i == len(rs)-1 {
+				sep = ""
+			}
+			fmt.Fprintf(b, "  (fun c => %s)%s\n", r.coq, sep)
 		}
-		fmt.Fprintf(&b, "  (fun c => %s)%s\n", r.coq, sep)
+		b.WriteString("].\n")
+		srcs, msgs := []string{}, []string{}
+		for _, r := range rs {
+			srcs = append(srcs, r.src)
+			msgs = append(msgs, r.msg)
+		}
+		fmt.Fprintf(b, "(* the Go source of each condition and its message, in the same order (for reports) *)\nDefinition gen_rule_src : list string := %s.\n", coqStrListSafe(srcs, ";\n  "))
+		fmt.Fprintf(b, "Definition gen_rule_msg : list string := %s.\n", coqStrListSafe(msgs, ";\n  "))
+		b.WriteString("Definition gen_validate (c : cfg) : bool := forallb (fun r => r c) gen_rules.\n")
+		// statements of ValidateNodeGroup outside the grammar (each untranslatable rule was emitted as `true`): listed on their own,
+		// so that the completeness of the rule list can be stated without mentioning any other item, and in gen_untranslated
+		b.WriteString("(* statements of ValidateNodeGroup outside the translator's grammar (each untranslatable rule is emitted as `true`) *)\n")
+		fmt.Fprintf(b, "Definition gen_rules_untranslated : list string := %s.\n", coqStrListSafe(t.untranslated, ";\n  "))
+		for _, m := range t.untranslated {
+			g.missing = append(g.missing, "gen_rules: "+m)
+		}
 	}
-	b.WriteString("].\n")
-	srcs, msgs := []string{}, []string{}
-	for _, r := range rs {
-		srcs = append(srcs, r.src)
-		msgs = append(msgs, r.msg)
-	}
-	ss, err := coqStrListSep(srcs, ";\n  ")
-	if err != nil {
-		return "", err
-	}
-	ms, err := coqStrListSep(msgs, ";\n  ")
-	if err != nil {
-		return "", err
-	}
-	fmt.Fprintf(&b, "(* the Go source of each condition and its message, in the same order (for reports) *)\nDefinition gen_rule_src : list string := %s.\n", ss)
-	fmt.Fprintf(&b, "Definition gen_rule_msg : list string := %s.\n", ms)
-	b.WriteString("Definition gen_validate (c : cfg) : bool := forallb (fun r => r c) gen_rules.\n")
-	us, err := coqStrListSep(t.untranslated, ";\n  ")
-	if err != nil {
-		return "", err
-	}
-	fmt.Fprintf(&b, "(* statements of ValidateNodeGroup outside the translator's grammar (each untranslatable rule is emitted as `true`) *)\nDefinition gen_untranslated : list string := %s.\n", us)
-	if len(t.untranslated) > 0 {
-		return b.String(), &partialError{msgs: t.untranslated}
+	b.WriteString("\n(* items above that are defined as GenItemUntranslated, and statements of ValidateNodeGroup outside the translator's\n")
+	b.WriteString("   grammar (each untranslatable rule is emitted as `true`): \"<item>: <why>\" *)\n")
+	fmt.Fprintf(b, "Definition gen_untranslated : list string := %s.\n", coqStrListSafe(g.missing, ";\n  "))
+	if len(g.missing) > 0 {
+		return b.String(), &partialError{msgs: g.missing, what: "each item named below is emitted as GenItemUntranslated, each rule outside the grammar as `true`; the rest of Generated.v is complete"}
 	}
 	return b.String(), nil
 }
 
-// partialError: the file was produced, but some statements of ValidateNodeGroup could not be translated.
+// partialError: the file was produced, but some items / statements could not be translated.
 type partialError struct {
 	msgs []string
 	what string
